@@ -39,7 +39,8 @@ pub struct Case {
 	pub csr_digest: Option<String>,
 	pub attrs: BTreeMap<String, String>,
 	pub kp_reuse: bool,
-	/// none | usable | garbage
+	/// none | usable | garbage | othertype (a well-formed key of another type at the key path: restored from elsewhere, or left by a
+	/// configuration whose file names do not depend on the key type)
 	pub prekey: String,
 	pub authz_shuffle: u64,
 	pub chain_len: usize,
@@ -103,7 +104,7 @@ pub fn strategy() -> impl Strategy<Value = Case> {
 		proptest::option::weighted(0.7, proptest::sample::select(vec!["sha256", "SHA256", "sha-256", "sha384", "SHA-384", "sha_384", "sha512", "Sha512", "sha-512"])),
 		attrs_strategy(),
 		any::<bool>(),
-		proptest::sample::select(vec!["none", "usable", "garbage"]),
+		proptest::sample::select(vec!["none", "usable", "garbage", "othertype"]),
 		any::<u64>(),
 		1usize..=4,
 	)
@@ -183,6 +184,14 @@ fn exec_in(case: &Case, acmed: &std::path::Path, dir: &std::path::Path) -> Outco
 	let mut pre: Option<Vec<u8>> = None;
 	match case.prekey.as_str() {
 		"usable" => match keys::gen(&case.key_type) {
+			Ok(k) => {
+				let pem = keys::pkcs8_pem(&k);
+				let _ = std::fs::write(&key_path, &pem);
+				pre = Some(pem);
+			}
+			Err(e) => return Outcome::Infra(e),
+		},
+		"othertype" => match keys::gen(if case.key_type == "ecdsa-p384" { "ecdsa-p256" } else { "ecdsa-p384" }) {
 			Ok(k) => {
 				let pem = keys::pkcs8_pem(&k);
 				let _ = std::fs::write(&key_path, &pem);
@@ -289,8 +298,11 @@ fn exec_in(case: &Case, acmed: &std::path::Path, dir: &std::path::Path) -> Outco
 	if got_subj != want_subj {
 		return Outcome::fail("C01:csr-subject", format!("CSR subject {got_subj:?} differs from the configured attributes {want_subj:?}"));
 	}
+	// kp_reuse with a stored key of another type: whether that key is used or replaced is not stated; whichever key signs the CSR
+	// must be the one in the file afterwards
+	let foreign_reuse = case.kp_reuse && case.prekey == "othertype";
 	let want_oid = expected_sig_oid(&case.key_type, digest_of(&case.csr_digest));
-	if csr.sig_alg_oid != want_oid {
+	if csr.sig_alg_oid != want_oid && !foreign_reuse {
 		return Outcome::fail("C01:csr-digest", format!("CSR signatureAlgorithm {} but key type {} with digest {:?} requires {want_oid}", csr.sig_alg_oid, case.key_type, case.csr_digest));
 	}
 	match crate::mockca::issue::csr_signature_ok(csr_der) {
@@ -311,13 +323,14 @@ fn exec_in(case: &Case, acmed: &std::path::Path, dir: &std::path::Path) -> Outco
 	}
 	match keys::type_of_spki(&key_spki) {
 		Ok(t) if t == case.key_type => {}
+		_ if foreign_reuse => {}
 		other => return Outcome::fail("C01:key-type", format!("stored key is {other:?}, configured {}", case.key_type)),
 	}
 	let reused = pre.as_deref() == Some(key_snap.bytes.as_slice());
 	if case.kp_reuse && case.prekey == "usable" && !reused {
 		return Outcome::fail("C01:kp-reuse-ignored", "kp_reuse is on and a usable key existed, but the key file was replaced".to_string());
 	}
-	if (!case.kp_reuse || case.prekey != "usable") && reused && pre.is_some() {
+	if (!case.kp_reuse || case.prekey != "usable") && reused && pre.is_some() && !foreign_reuse {
 		return Outcome::fail("C01:key-not-renewed", format!("kp_reuse={} prekey={} but the old key file content is still there", case.kp_reuse, case.prekey));
 	}
 	let mut classes = vec![format!("key={}", case.key_type), format!("digest={}", digest_of(&case.csr_digest)), format!("attrs={}", case.attrs.len()), format!("kp_reuse={}x{}", case.kp_reuse, case.prekey), format!("n_ids={}", case.ids.len())];
@@ -336,7 +349,7 @@ fn exec_in(case: &Case, acmed: &std::path::Path, dir: &std::path::Path) -> Outco
 }
 
 pub fn run(ctx: &Ctx, rep: &mut Report) {
-	rep.rule = "case = certificate configuration (1..8 identifiers: plain/wildcard/IDN/mixed-case DNS, IPv4, IPv6 in a random accepted spelling; key type; csr_digest spelling; subset of the 15 subject attributes; kp_reuse x pre-existing key file none/usable/garbage) run through the real daemon against the fault-free strict mock CA until the first post-operation record. Oracle: newOrder identifiers == expected normalised multiset (own punycode / RFC 5952), CSR DER (own walker): SAN multiset, subject RDNs, signatureAlgorithm OID, self-signature; CSR SPKI == SPKI of the key file snapshotted at post-operation; kp_reuse semantics; success reported. Non-trivial = >= 2 identifiers with at least one wildcard, IDN, mixed-case or non-canonical IPv6.".into();
+	rep.rule = "case = certificate configuration (1..8 identifiers: plain/wildcard/IDN/mixed-case DNS, IPv4, IPv6 in a random accepted spelling; key type; csr_digest spelling; subset of the 15 subject attributes; kp_reuse x pre-existing key file none/usable/garbage/usable key of another type) run through the real daemon against the fault-free strict mock CA until the first post-operation record. Oracle: newOrder identifiers == expected normalised multiset (own punycode / RFC 5952), CSR DER (own walker): SAN multiset, subject RDNs, signatureAlgorithm OID, self-signature; CSR SPKI == SPKI of the key file snapshotted at post-operation; kp_reuse semantics; success reported. Non-trivial = >= 2 identifiers with at least one wildcard, IDN, mixed-case or non-canonical IPv6.".into();
 	rep.assume("the mock CA behaves as RFC 8555 requires and offers every challenge type (dns-01 only for wildcards)");
 	run_replays::<Case>(ctx, rep, "bb", &exec);
 	if ctx.replay.is_some() {
